@@ -184,17 +184,32 @@ func VerifHarness_RuntimeSpans() {
 	errors.VerifTag("kind", []string{"uncaught-throw", "caught-throw", "index-fatal", "division-fatal"}[kind])
 	errors.VerifTag("backend", []string{"vm", "tree"}[backend])
 	blank := strings.Repeat("\n", pad)
+	// statements that precede the failing construct in the same function: each compiles to jumps and labels
+	// (the VM's source map is relocated around them) and occupies exactly one line
+	preludes := []string{
+		"",
+		"  if 1 > 2 { println(0); } else { println(1); }\n",
+		"  let w = 0; while w < 2 { w += 1; }\n",
+		"  try { println(2); } catch e { println(e.message); }\n",
+		"  for i in 0..2 { if i == 1 { continue; } }\n",
+		"  let m = match 2 { 1 => 10, 2 => 20, _ => 30 }; println(m);\n",
+		"  if 1 < 2 { println(3); }\n  loop { break; }\n",
+	}
+	pre := errors.VerifNdIntRange("prelude", 0, len(preludes)-1)
+	errors.VerifTag("prelude", fmt.Sprint(pre))
+	prelude := preludes[pre]
+	preOut := []string{"", "1\n", "", "2\n", "", "20\n", "3\n"}[pre]
 	var code string
-	line := uint(2 + pad) // line of the failing construct
+	line := uint(2 + pad + strings.Count(prelude, "\n")) // line of the failing construct
 	switch kind {
 	case 0:
-		code = "fn main() {\n" + blank + "  throw(\"boom\");\n}\n"
+		code = "fn main() {\n" + blank + prelude + "  throw(\"boom\");\n}\n"
 	case 1:
-		code = "fn f() {\n" + blank + "  throw(\"boom\");\n}\nfn main() {\n  try { f(); } catch e { println(e.line, e.column, e.message); }\n}\n"
+		code = "fn f() {\n" + blank + prelude + "  throw(\"boom\");\n}\nfn main() {\n  try { f(); } catch e { println(e.line, e.column, e.message); }\n}\n"
 	case 2:
-		code = "fn main() {\n" + blank + "  let l = [1]; println(l[A]);\n}\n"
+		code = "fn main() {\n" + blank + prelude + "  let l = [1]; println(l[A]);\n}\n"
 	case 3:
-		code = "fn main() {\n" + blank + "  println(1 / A);\n}\n"
+		code = "fn main() {\n" + blank + prelude + "  println(1 / A);\n}\n"
 	}
 	a := errors.VerifNdInt64("A")
 	if kind == 2 {
@@ -222,7 +237,7 @@ func VerifHarness_RuntimeSpans() {
 	}
 	errors.VerifReached("ran")
 	if kind == 1 {
-		errors.VerifAssert("caught-exception-carries-the-throw-position", verifHasPrefix(o.out, fmt.Sprint(line)+" 3 boom") || verifHasPrefix(o.out, fmt.Sprint(line)+" 8 boom"))
+		errors.VerifAssert("caught-exception-carries-the-throw-position", verifHasPrefix(o.out, preOut+fmt.Sprint(line)+" 3 boom") || verifHasPrefix(o.out, preOut+fmt.Sprint(line)+" 8 boom"))
 		return
 	}
 	if backend == 1 && kind != 2 && kind != 3 {
